@@ -16,6 +16,10 @@ META = {
                    "change a later response needs reasoning over whole histories and is not claimed. Trusted: rustc MIR, tmfacts, walker."),
 }
 
+# --- additions to the level description (rules added after the first version)
+META['level_text'] += ' No return path of release_all gets round that loop (no fast path).'
+# --- end additions
+
 RA = MOD + "Mapper::release_all"
 NP = MOD + "newly_press"
 
